@@ -7,7 +7,7 @@ namespace Iox2.ReqRes
 open Iox2.PubSub (Reg firstFree)
 
 /-- the request message `m` was written by an existing client whose request-id counter is past it -/
-def MsgOk (w : World) (m : Msg) : Prop := ∃ C, getCl w m.client = some C ∧ m.rid < C.ridCtr
+def MsgOk (w : World) (m : Msg) : Prop := ∃ C, getCl w m.client = some C ∧ m.rid < C.ridCtr ∧ m.gSeq < C.gSendCtr
 
 theorem MsgOk.of_clients {w w' : World} {m : Msg} (h : MsgOk w m) (hc : w'.clients = w.clients) : MsgOk w' m := by
   obtain ⟨C, hC, hr⟩ := h
@@ -22,7 +22,7 @@ theorem Inv.init (c : Cfg) : Inv (World.init c) := by
   have hC : ∀ p, getCl (World.init c) p = none := fun _ => rfl
   have hV : ∀ p, getSv (World.init c) p = none := fun _ => rfl
   have hN : ∀ f t, getConn (World.init c) f t = none := fun _ _ => rfl
-  refine ⟨?_, ?_, ?_, ?_, ?_, ?_, ?_, ?_, ?_, ?_, ?_, ?_, ?_, InvX.init c, InvB.init c⟩
+  refine ⟨?_, ?_, ?_, ?_, ?_, ?_, ?_, ?_, ?_, ?_, ?_, ?_, ?_, InvX.init c, InvB.init c, InvF.init c⟩
   · intro p S h; rw [hS] at h; cases h
   · intro p S h; rw [hR] at h; cases h
   · intro p S i t h; rw [hS] at h; cases h
@@ -62,7 +62,7 @@ theorem Inv.clientCreate {w : World} (hI : Inv w) (c active : Nat) (hfresh : get
   generalize ReqRes.clientForceUpdate _ c = w1 at h1 k1
   have hfresh1 : getCl w1 c = none := by rw [k1.getCl_eq]; simpa using hfresh
   split
-  · next reg slot hadd => exact Inv.finishPanic hI (h1.clientNew hfresh1 hadd rfl rfl rfl (Nat.zero_le _))
+  · next reg slot hadd => exact Inv.finishPanic hI (h1.clientNew hfresh1 hadd rfl rfl rfl (Nat.zero_le _) rfl rfl)
   · exact Inv.finishPanic hI ((h1.portDestroy (cid c)).delPort (cid c))
 
 theorem Inv.opCClient {w : World} (hI : Inv w) (c : Nat) (ma : Option Nat) : Inv (opCClient w c ma).1 := by
@@ -89,9 +89,10 @@ theorem Inv.opCServer {w : World} (hI : Inv w) (s : Nat) (ml : Option Nat) : Inv
     split
     · next reg slot hadd =>
       refine Inv.finishPanic hI ?_
-      exact h1.setSvReg s _ reg (fun A hA => by cases hA) (h1.x.serverNew hfresh1 hadd rfl rfl rfl)
+      exact h1.setSvReg s _ reg (fun A hA => by cases hA) (h1.x.serverNew hfresh1 hadd rfl rfl rfl rfl)
         (h1.y.setSvReg s _ reg (fun V hV => by rw [hfresh1] at hV; cases hV) List.Pairwise.nil (fun A hA => by cases hA)
           (fun A hA => by cases hA) (fun A hA => by cases hA))
+        (h1.f.setSv' (s := s) rfl (fun _ => rfl) (fun _ => getSv_setSv _ _ _ _) (fun _ _ => rfl) (fun c v hv => by cases hv))
     · exact Inv.finishPanic hI ((h1.portDestroy (sid s)).delPort (sid s))
 
 theorem Inv.clientDestroy {w : World} (hI : Inv w) (c : Nat) : Inv (clientDestroyIfUnreferenced w c) := by
@@ -120,7 +121,9 @@ theorem Inv.serverDestroy {w : World} (hI : Inv w) (s : Nat) : Inv (serverDestro
         exact hcond.2
       exact (hI.setSvReg s { V with ex := false } _ (hI.sub_actives (V' := { V with ex := false }) hV (fun A hA => ⟨A, hA, rfl, rfl⟩))
         (hI.x.serverGone hV hex)
-        (hI.y.setSv_mono (V' := { V with ex := false }) hV _ rfl (hI.y.u1 s V hV) (fun A hA => ⟨A, hA, rfl, Nat.le_refl _⟩))).portDestroy (sid s)
+        (hI.y.setSv_mono (V' := { V with ex := false }) hV _ rfl (hI.y.u1 s V hV) (fun A hA => ⟨A, hA, rfl, Nat.le_refl _⟩))
+        (hI.f.setSv' (s := s) (V' := { V with ex := false }) rfl (fun _ => rfl) (fun _ => getSv_setSv _ _ _ _) (fun _ _ => rfl)
+          (fun c v hv => Or.inl ⟨V, hV, hv⟩))).portDestroy (sid s)
 
 theorem Inv.opDClient {w : World} (hI : Inv w) (c : Nat) : Inv (opDClient w c).1 := by
   unfold ReqRes.opDClient
@@ -130,7 +133,7 @@ theorem Inv.opDClient {w : World} (hI : Inv w) (c : Nat) : Inv (opDClient w c).1
     split
     · exact hI
     · exact (hI.setCl_frame (C' := { C with alive := false }) hC rfl rfl rfl rfl (fun P hP m hm => hI.x.g1 c C P m hC hP hm)
-        (hI.x.cl3 c C hC) (hI.y.setCl_sub hC (fun P hP => Or.inl ⟨P, hP, rfl, rfl⟩))).clientDestroy c
+        (hI.x.cl3 c C hC) (hI.y.setCl_sub hC (fun P hP => Or.inl ⟨P, hP, rfl, rfl⟩)) rfl rfl rfl).clientDestroy c
 
 theorem Inv.opDServer {w : World} (hI : Inv w) (s : Nat) : Inv (opDServer w s).1 := by
   unfold ReqRes.opDServer
@@ -139,7 +142,7 @@ theorem Inv.opDServer {w : World} (hI : Inv w) (s : Nat) : Inv (opDServer w s).1
   · next V hV =>
     split
     · exact hI
-    · exact (hI.setSv_sub (V' := { V with alive := false }) hV (fun A hA => ⟨A, hA, rfl, rfl, Nat.le_refl _⟩) (hI.y.u1 s V hV) rfl rfl rfl).serverDestroy s
+    · exact (hI.setSv_sub (V' := { V with alive := false }) hV (fun A hA => ⟨A, hA, rfl, rfl, Nat.le_refl _⟩) (hI.y.u1 s V hV) rfl rfl rfl rfl).serverDestroy s
 
 theorem allocate_key (S : Snd) : S.allocate.1.init = S.init ∧ S.allocate.1.conns = S.conns := by
   unfold Snd.allocate
@@ -167,15 +170,18 @@ theorem getSv_deliverTo (w : World) (p t : Pid) (ch : Nat) (e : Entry) (s : Nat)
     getSv (ReqRes.deliverTo w p t ch e).1 s = getSv w s := by
   unfold getSv; rw [(deliverTo_core w p t ch e).2.2.2.1]
 
-/-- the connection loop of `deliver_offset`: the targets are servers and pairwise different, the
-request is above everything queued for them and above everything they handed out for this client -/
+/-- the connection loop of `deliver_offset`: the targets are servers and pairwise different, the send
+number of the request is above everything queued for them and above everything they handed out for this
+client, its request id differs from all of those and from every loan of the client -/
 theorem Inv.deliverAll {w : World} (hI : Inv w) (c : Nat) (e : Entry) (l : List (Option Pid)) (k : Nat)
     (hl : ∀ t, some t ∈ l → t.srv = true)
     (hnd : ∀ i j t, l.getD i none = some t → l.getD j none = some t → i = j)
-    (he1 : e.msg.client = c ∧ ∃ C, getCl w c = some C ∧ e.msg.rid < C.ridCtr)
+    (he1 : e.msg.client = c ∧ ∃ C, getCl w c = some C ∧ e.msg.rid < C.ridCtr ∧ e.msg.gSeq < C.gSendCtr)
     (hq1 : ∀ t, some t ∈ l → ∀ (conn : Conn) (ch : Nat) (x : Chan) (e' : Entry), getConn w (cid c) t = some conn →
-      conn.chans[ch]? = some x → e' ∈ x.sub → e'.msg.rid < e.msg.rid)
-    (hq2 : ∀ s V v, getSv w s = some V → (c, v) ∈ V.gRecvReq → v < e.msg.rid) :
+      conn.chans[ch]? = some x → e' ∈ x.sub → e'.msg.gSeq < e.msg.gSeq ∧ e'.msg.rid ≠ e.msg.rid)
+    (hq2 : ∀ s V v, getSv w s = some V → (c, v) ∈ V.gRecvSeq → v < e.msg.gSeq)
+    (hq2r : ∀ s V v, getSv w s = some V → (c, v) ∈ V.gRecvReq → v ≠ e.msg.rid)
+    (hq4 : ∀ C (q : QLoan), getCl w c = some C → q ∈ C.qloans → e.msg.rid ≠ q.rid) :
     Inv (ReqRes.deliverAll w (cid c) 0 e l k).1 := by
   induction l generalizing w k with
   | nil => exact hI
@@ -188,13 +194,15 @@ theorem Inv.deliverAll {w : World} (hI : Inv w) (c : Nat) (e : Entry) (l : List 
     | none =>
       simp only [ReqRes.deliverAll]
       exact ih hI k (fun t ht => hl t (List.mem_cons_of_mem _ ht)) hnd' he1
-        (fun t ht => hq1 t (List.mem_cons_of_mem _ ht)) hq2
+        (fun t ht => hq1 t (List.mem_cons_of_mem _ ht)) hq2 hq2r hq4
     | some t =>
       simp only [ReqRes.deliverAll]
       have ht : t.srv = true := hl t (List.mem_cons_self ..)
       have h1 := hI.deliverTo (cid c) t 0 e (fun _ => ⟨rfl, he1.1, he1.2⟩) (fun hf => by rw [ht] at hf; cases hf)
         (fun _ conn x e' hc hx he' => hq1 t (List.mem_cons_self ..) conn 0 x e' hc hx he')
         (fun c' s V v hp _ hV hv => by simp only [cid_inj] at hp; subst hp; exact hq2 s V v hV hv)
+        (fun c' s V v hp _ hV hv => by simp only [cid_inj] at hp; subst hp; exact hq2r s V v hV hv)
+        (fun _ c' C q hp hC hq => by simp only [cid_inj] at hp; subst hp; exact hq4 C q hC hq)
         (hI.y.deliverTo (cid c) t 0 e (fun hf => by rw [ht] at hf; cases hf) (fun hf => by rw [ht] at hf; cases hf)
           (fun c' C P m htc => by rw [htc] at ht; cases ht) (fun s V A hp => by cases hp))
       have htr : some t ∉ r := by
@@ -204,14 +212,23 @@ theorem Inv.deliverAll {w : World} (hI : Inv w) (c : Nat) (e : Entry) (l : List 
         omega
       refine ih h1 _ (fun t ht => hl t (List.mem_cons_of_mem _ ht)) hnd' (by simpa only [getCl_deliverTo] using he1) ?_
         (fun s V v hV hv => hq2 s V v (by rw [← getSv_deliverTo]; exact hV) hv)
+        (fun s V v hV hv => hq2r s V v (by rw [← getSv_deliverTo]; exact hV) hv)
+        (fun C q hC hq => hq4 C q (by rw [← getCl_deliverTo]; exact hC) hq)
       intro t' ht' conn j x' e' hc hx he'
       have htt : t' ≠ t := fun h => htr (h ▸ ht')
       obtain ⟨c0, x, hc0, hx0, hs⟩ := deliverTo_other w (cid c) t 0 e (cid c) t' (fun h => htt h.2) conn j x' hc hx
       rw [hs] at he'
       exact hq1 t' (List.mem_cons_of_mem _ ht') c0 j x e' hc0 hx0 he'
 
+/-- `rid` is the request id of a loan of client `c` that is about to be sent or kept: below the counter and
+used by nothing else; the loan counter has room for it -/
+def LoanOk (w : World) (c rid : Nat) : Prop :=
+  ∃ C, getCl w c = some C ∧ rid < C.ridCtr ∧ (∀ P ∈ C.pendings, P.rid ≠ rid) ∧ (∀ q ∈ C.qloans, q.rid ≠ rid) ∧
+    QBelow w c C.gSendCtr rid ∧ C.qloans.length < C.loanCnt
+
 theorem Inv.sendRequest {w : World} (hI : Inv w) (c r ch rid chunk tag : Nat) (C : Client) (hC : getCl w c = some C)
-    (hlt : rid < C.ridCtr) (hold : ∀ P ∈ C.pendings, P.rid < rid) (hq : QBelow w c rid) (hroom : C.activeCnt < C.maxActive) :
+    (hlt : rid < C.ridCtr) (hnp : ∀ P ∈ C.pendings, P.rid ≠ rid) (hnq : ∀ q ∈ C.qloans, q.rid ≠ rid)
+    (hq : QBelow w c C.gSendCtr rid) (hroom : C.activeCnt < C.maxActive) (hloan : C.qloans.length < C.loanCnt) :
     Inv (sendRequest w c r ch rid chunk tag).1 := by
   unfold ReqRes.sendRequest
   simp only []
@@ -231,7 +248,7 @@ theorem Inv.sendRequest {w : World} (hI : Inv w) (c r ch rid chunk tag : Nat) (C
       (by
         intro P' hP'
         rcases List.mem_append.mp hP' with h | h
-        · exact Nat.lt_trans (hold P' h) hlt
+        · exact h1.cl1 c C P' hcl h
         · simp only [List.mem_singleton] at h; subst h; rw [hPr]; exact hlt)
       (by
         show (C.pendings ++ [P]).Pairwise _
@@ -239,7 +256,7 @@ theorem Inv.sendRequest {w : World} (hI : Inv w) (c r ch rid chunk tag : Nat) (C
         refine ⟨h1.cl2 c C hcl, List.pairwise_singleton _ _, ?_⟩
         intro a ha b hb
         simp only [List.mem_singleton] at hb; subst hb
-        rw [hPr]; exact Nat.ne_of_lt (hold a ha))
+        rw [hPr]; exact hnp a ha)
       (by
         intro P' hP' m hm
         rcases List.mem_append.mp hP' with h | h
@@ -255,7 +272,21 @@ theorem Inv.sendRequest {w : World} (hI : Inv w) (c r ch rid chunk tag : Nat) (C
         rcases List.mem_append.mp hP' with h | h
         · exact Or.inl ⟨P', h, rfl, rfl⟩
         · simp only [List.mem_singleton] at h; subst h; exact Or.inr hPg))
-    have hq2 : QBelow (ReqRes.setCl w1 c (C.addPending P)) c rid := hq1.of_same rfl rfl
+      (Nat.le_succ _)
+      (h1.f.setCl' (c := c) (C' := C.addPending P) rfl (fun _ => getCl_setCl _ _ _ _) (fun _ => rfl) (fun _ _ => rfl)
+        (fun q hq' => h1.f.f1 c C q hcl hq') (h1.f.f2 c C hcl)
+        (by
+          intro q hq' P' hP'
+          rcases List.mem_append.mp hP' with h | h
+          · exact h1.f.f3 c C q P' hcl hq' h
+          · simp only [List.mem_singleton] at h; subst h; rw [hPr]; exact fun e => hnq q hq' e.symm)
+        (fun q hq' t conn ch' x e => h1.f.f4 c C q t conn ch' x e hcl hq')
+        (fun q hq' s V v => h1.f.f5 c C q s V v hcl hq')
+        (by
+          have := h1.f.f6 c C hcl
+          show C.qloans.length ≤ C.loanCnt - 1 ∧ C.loanCnt - 1 ≤ w1.cfg.maxLoans
+          omega))
+    have hq2 : QBelow (ReqRes.setCl w1 c (C.addPending P)) c C.gSendCtr rid := hq1.of_same rfl rfl
     have h3 := h2.rcvMapAll (cid c) ch (fun x => x.setState rid) (fun x => setState_sub x _)
     have hq3 := hq2.rcvMapAll (cid c) ch (fun x => x.setState rid) (fun x => setState_sub x _)
     have h4 := h3.retrieveReturned (cid c)
@@ -273,7 +304,8 @@ theorem Inv.sendRequest {w : World} (hI : Inv w) (c r ch rid chunk tag : Nat) (C
         obtain ⟨i, hi⟩ := mem_getD _ _ ht
         simpa using h4.slotKind _ S i t hS hi
       · cases ht
-    refine h4.deliverAll c _ _ 0 hkind ?_ ⟨rfl, C.addPending P, hcl4, hlt⟩ ?_ (fun s V v hV hv => hq4.2 s V v hV hv)
+    refine h4.deliverAll c _ _ 0 hkind ?_ ⟨rfl, C.addPending P, hcl4, hlt, Nat.lt_succ_self _⟩ ?_
+      (fun s V v hV hv => hq4.2.1 s V v hV hv) (fun s V v hV hv => hq4.2.2 s V v hV hv) ?_
     · intro i j t hi hj
       cases hS : getSnd w4 (cid c) with
       | none => simp [sndConns, hS] at hi
@@ -285,6 +317,91 @@ theorem Inv.sendRequest {w : World} (hI : Inv w) (c r ch rid chunk tag : Nat) (C
         rw [← hsl, ← hsl']
     · intro t ht conn j x e' hc hx he'
       exact hq4.1 t conn j x e' hc hx he' (hkind t ht)
+    · intro C' q hC' hq'
+      rw [hcl4] at hC'; cases hC'
+      exact fun e => hnq q hq' e.symm
+
+theorem Inv.clientLoan {w : World} (hI : Inv w) (c l : Nat) :
+    Inv (clientLoan w c l).1 ∧ ∀ q, (clientLoan w c l).2.1 = some q → LoanOk (clientLoan w c l).1 c q.rid := by
+  unfold ReqRes.clientLoan
+  split
+  · exact ⟨hI, fun q h => by simp at h⟩
+  · next C0 hC0 =>
+    split
+    · exact ⟨hI, fun q h => by simp at h⟩
+    · next hlim =>
+      simp only []
+      have hq0 : QBelow w c C0.gSendCtr C0.ridCtr := by
+        refine ⟨fun t conn ch x e' hc hx he ht => ?_, fun s V v hV hv => ?_, fun s V v hV hv => ?_⟩
+        · obtain ⟨_, _, C, hC, hr, hs⟩ := hI.e1 (cid c) t conn ch x e' hc hx he ht
+          simp only [cid_n] at hC; rw [hC0] at hC; cases hC; exact ⟨hs, Nat.ne_of_lt hr⟩
+        · obtain ⟨C, hC, hr⟩ := hI.x.c4s s V c v hV hv
+          rw [hC0] at hC; cases hC; exact hr
+        · obtain ⟨C, hC, hr⟩ := hI.x.c4 s V c v hV hv
+          rw [hC0] at hC; cases hC; exact Nat.ne_of_lt hr
+      have h1 := hI.retrieveReturned (cid c)
+      have k1 := (retrieveReturned_hk w (cid c)).1
+      have hcl1 : getCl (ReqRes.retrieveReturned w (cid c)) c = some C0 := by
+        rw [k1.getCl_eq]; exact hC0
+      have hq1 := hq0.of_hk k1
+      have hcfg1 := k1.cfg
+      generalize ReqRes.retrieveReturned w (cid c) = w1 at h1 hcl1 hq1 hcfg1
+      split
+      · exact ⟨h1, fun q h => by simp at h⟩
+      · next S hS =>
+        split
+        · exact ⟨h1, fun q h => by simp at h⟩
+        · exact ⟨h1, fun q h => by simp at h⟩
+        · exact ⟨h1.panic, fun q h => by simp at h⟩
+        · next S' chunk hal =>
+          have hk := allocate_key S
+          rw [hal] at hk
+          have h2 := h1.setSnd_same (S' := S') hS hk.1 hk.2
+          have hcl2 : getCl (setSnd w1 (cid c) S') c = some C0 := by simpa using hcl1
+          split
+          · exact ⟨h2.panic, fun q h => by simp at h⟩
+          · next ch ids hids =>
+            have hf6 := h2.f.f6 c C0 hcl2
+            have hcfg2 : (setSnd w1 (cid c) S').cfg = w.cfg := hcfg1
+            have h3 := h2.setCl_frame' (C' := { C0 with chanIds := ids, ridCtr := C0.ridCtr + 1, loanCnt := C0.loanCnt + 1 }) hcl2 rfl rfl
+              rfl (fun P hP => Nat.lt_succ_of_lt (h2.cl1 c C0 P hcl2 hP)) (h2.cl2 c C0 hcl2)
+              (fun P hP m hm => h2.x.g1 c C0 P m hcl2 hP hm) (h2.x.cl3 c C0 hcl2)
+              (h2.y.setCl_sub hcl2 (fun P hP => Or.inl ⟨P, hP, rfl, rfl⟩)) rfl
+              (h2.f.setCl_sub hcl2 (List.Sublist.refl _) (fun P' hP' => ⟨P', hP', rfl⟩) (Nat.le_succ _)
+                (by
+                  show C0.qloans.length ≤ C0.loanCnt + 1 ∧ C0.loanCnt + 1 ≤ (setSnd w1 (cid c) S').cfg.maxLoans
+                  rw [hcfg2]; omega))
+            refine ⟨h3, fun q hq => ?_⟩
+            simp only [Option.some.injEq] at hq
+            subst hq
+            refine ⟨_, by simp, Nat.lt_succ_self _, fun P hP => Nat.ne_of_lt (hI.cl1 c C0 P hC0 hP),
+              fun q hq => Nat.ne_of_lt (hI.f.f1 c C0 q hC0 hq), ?_, Nat.lt_succ_of_le hf6.1⟩
+            exact (hq1.of_same (w' := setSnd w1 (cid c) S') rfl rfl).of_same rfl rfl
+
+theorem Inv.clientReleaseLoan {w : World} (hI : Inv w) (c : Nat) (q : QLoan)
+    (hloan : ∀ C, getCl w c = some C → C.qloans.length < C.loanCnt) : Inv (clientReleaseLoan w c q) := by
+  unfold ReqRes.clientReleaseLoan
+  split
+  · exact hI
+  · next C hC =>
+    have hf6 := hI.f.f6 c C hC
+    have hl := hloan C hC
+    refine Inv.sndReturnLoan ?_ _ _
+    exact hI.setCl_frame' (C' := { C with chanIds := C.chanIds ++ [q.channel], loanCnt := C.loanCnt - 1 }) hC rfl rfl rfl rfl
+      (fun P hP m hm => hI.x.g1 c C P m hC hP hm) (hI.x.cl3 c C hC)
+      (hI.y.setCl_sub hC (fun P hP => Or.inl ⟨P, hP, rfl, rfl⟩)) rfl
+      (hI.f.setCl_sub hC (List.Sublist.refl _) (fun P' hP' => ⟨P', hP', rfl⟩) (Nat.le_refl _)
+        (by show C.qloans.length ≤ C.loanCnt - 1 ∧ C.loanCnt - 1 ≤ w.cfg.maxLoans; omega))
+
+theorem Inv.clientSendLoan {w : World} (hI : Inv w) (c : Nat) (q : QLoan) (r tag : Nat) (hok : LoanOk w c q.rid) :
+    Inv (clientSendLoan w c q r tag).1 := by
+  unfold ReqRes.clientSendLoan
+  obtain ⟨C, hC, hlt, hnp, hnq, hqb, hlen⟩ := hok
+  rw [hC]
+  simp only []
+  split
+  · exact hI.clientReleaseLoan c q (fun C' hC' => by rw [hC] at hC'; cases hC'; exact hlen)
+  · next hroom => exact hI.sendRequest c r q.channel q.rid q.chunk tag C hC hlt hnp hnq hqb (Nat.lt_of_not_le hroom) hlen
 
 theorem Inv.opSend {w : World} (hI : Inv w) (c r tag : Nat) : Inv (opSend w c r tag).1 := by
   unfold ReqRes.opSend
@@ -295,47 +412,132 @@ theorem Inv.opSend {w : World} (hI : Inv w) (c r tag : Nat) : Inv (opSend w c r 
     · exact hI
     · split
       · exact hI
-      · simp only []
-        have hq0 : QBelow w c C0.ridCtr := by
-          refine ⟨fun t conn ch x e' hc hx he ht => ?_, fun s V v hV hv => ?_⟩
-          · obtain ⟨_, _, C, hC, hr⟩ := hI.e1 (cid c) t conn ch x e' hc hx he ht
-            simp only [cid_n] at hC; rw [hC0] at hC; cases hC; exact hr
-          · obtain ⟨C, hC, hr⟩ := hI.x.c4 s V c v hV hv
-            rw [hC0] at hC; cases hC; exact hr
-        have h1 := hI.retrieveReturned (cid c)
-        have hcl1 : getCl (ReqRes.retrieveReturned w (cid c)) c = some C0 := by
-          rw [(retrieveReturned_hk _ _).1.getCl_eq]; exact hC0
-        have hq1 := hq0.of_hk (retrieveReturned_hk w (cid c)).1
-        generalize ReqRes.retrieveReturned w (cid c) = w1 at h1 hcl1 hq1
+      · obtain ⟨h1, hok⟩ := hI.clientLoan c 0
         split
-        · exact h1
-        · next S hS =>
-          split
-          · exact h1
-          · exact h1
-          · exact h1.panic
-          · next S' chunk hal =>
-            have hk := allocate_key S
-            rw [hal] at hk
-            have h2 := h1.setSnd_same (S' := S') hS hk.1 hk.2
-            have hcl2 : getCl (setSnd w1 (cid c) S') c = some C0 := by simpa using hcl1
-            have hg : ∀ P ∈ C0.pendings, ∀ m ∈ P.gRecv, m.rid = P.rid ∧ (m.gClient = c ∨ m.gStale = true) :=
-              fun P hP m hm => hI.x.g1 c C0 P m hC0 hP hm
-            split
-            · exact h2.panic
-            · next ch ids hids =>
-              split
-              · have h3 := h2.setCl (C' := { C0 with chanIds := ids ++ [ch], ridCtr := C0.ridCtr + 1 }) hcl2 rfl rfl
-                  (Nat.le_succ _) (fun P hP => Nat.lt_succ_of_lt (hI.cl1 c C0 P hC0 hP)) (hI.cl2 c C0 hC0) hg (hI.x.cl3 c C0 hC0)
-                  (h2.y.setCl_sub hcl2 (fun P hP => Or.inl ⟨P, hP, rfl, rfl⟩))
-                exact h3.setSnd_same (S := S') (by simp) (returnLoan_init _ _) (returnLoan_conns _ _)
-              · next hroom =>
-                have h3 := h2.setCl (C' := { C0 with chanIds := ids, ridCtr := C0.ridCtr + 1 }) hcl2 rfl rfl
-                  (Nat.le_succ _) (fun P hP => Nat.lt_succ_of_lt (hI.cl1 c C0 P hC0 hP)) (hI.cl2 c C0 hC0) hg (hI.x.cl3 c C0 hC0)
-                  (h2.y.setCl_sub hcl2 (fun P hP => Or.inl ⟨P, hP, rfl, rfl⟩))
-                exact h3.sendRequest c r ch C0.ridCtr chunk tag { C0 with chanIds := ids, ridCtr := C0.ridCtr + 1 } (by simp) (Nat.lt_succ_self _)
-                  (fun P hP => hI.cl1 c C0 P hC0 hP) ((hq1.of_same (w' := setSnd w1 (cid c) S') rfl rfl).of_same rfl rfl)
-                  (Nat.lt_of_not_le hroom)
+        · next w1 out heq => rw [heq] at h1; exact h1
+        · next w1 q _ heq =>
+          rw [heq] at h1 hok
+          exact h1.clientSendLoan c q r tag (hok q rfl)
+
+theorem mem_pairwise_qrid {l : List QLoan} (h : l.Pairwise (fun a b => a.rid ≠ b.rid)) {a b : QLoan} (ha : a ∈ l) (hb : b ∈ l)
+    (hab : a.rid = b.rid) : a = b := by
+  induction l with
+  | nil => cases ha
+  | cons x r ih =>
+    rw [List.pairwise_cons] at h
+    rcases List.mem_cons.mp ha with rfl | ha'
+    · rcases List.mem_cons.mp hb with rfl | hb'
+      · rfl
+      · exact absurd hab (h.1 b hb')
+    · rcases List.mem_cons.mp hb with rfl | hb'
+      · exact absurd hab.symm (h.1 a ha')
+      · exact ih h.2 ha' hb'
+
+theorem Inv.opQLoan {w : World} (hI : Inv w) (c l : Nat) : Inv (opQLoan w c l).1 := by
+  unfold ReqRes.opQLoan
+  split
+  · exact hI
+  · next C0 hC0 =>
+    split
+    · exact hI
+    · split
+      · exact hI
+      · obtain ⟨h1, hok⟩ := hI.clientLoan c l
+        split
+        · next w1 out heq => rw [heq] at h1; exact h1
+        · next w1 q _ heq =>
+          rw [heq] at h1 hok
+          obtain ⟨C, hC, hlt, hnp, hnq, hqb, hlen⟩ := hok q rfl
+          simp only [] at hC hqb
+          rw [hC]
+          simp only []
+          have hf6 := h1.f.f6 c C hC
+          refine h1.setCl_frame' (C' := { C with qloans := C.qloans ++ [q], usedLoanLabels := l :: C.usedLoanLabels }) hC rfl rfl rfl rfl
+            (fun P hP m hm => h1.x.g1 c C P m hC hP hm) (h1.x.cl3 c C hC)
+            (h1.y.setCl_sub hC (fun P hP => Or.inl ⟨P, hP, rfl, rfl⟩)) rfl ?_
+          refine h1.f.setCl' (c := c) rfl (fun _ => getCl_setCl _ _ _ _) (fun _ => rfl) (fun _ _ => rfl) ?_ ?_ ?_ ?_ ?_ ?_
+          · intro q' hq'
+            rcases List.mem_append.mp hq' with h | h
+            · exact h1.f.f1 c C q' hC h
+            · simp only [List.mem_singleton] at h; subst h; exact hlt
+          · show (C.qloans ++ [q]).Pairwise _
+            rw [List.pairwise_append]
+            refine ⟨h1.f.f2 c C hC, List.pairwise_singleton _ _, ?_⟩
+            intro a ha b hb
+            simp only [List.mem_singleton] at hb; subst hb
+            exact hnq a ha
+          · intro q' hq' P hP
+            rcases List.mem_append.mp hq' with h | h
+            · exact h1.f.f3 c C q' P hC h hP
+            · simp only [List.mem_singleton] at h; subst h; exact hnp P hP
+          · intro q' hq' t conn ch x e hc hx he ht
+            rcases List.mem_append.mp hq' with h | h
+            · exact h1.f.f4 c C q' t conn ch x e hC h hc hx he ht
+            · simp only [List.mem_singleton] at h; subst h; exact (hqb.1 t conn ch x e hc hx he ht).2
+          · intro q' hq' s V v hV hv
+            rcases List.mem_append.mp hq' with h | h
+            · exact h1.f.f5 c C q' s V v hC h hV hv
+            · simp only [List.mem_singleton] at h; subst h; exact hqb.2.2 s V v hV hv
+          · show (C.qloans ++ [q]).length ≤ C.loanCnt ∧ C.loanCnt ≤ w1.cfg.maxLoans
+            simp only [List.length_append, List.length_singleton]
+            omega
+
+/-- a kept loan is taken out of the list of loans: what is known about it afterwards -/
+theorem Inv.takeLoan {w : World} (hI : Inv w) (c l : Nat) (C : Client) (q : QLoan) (hC : getCl w c = some C)
+    (hfind : C.qloans.find? (·.label = l) = some q) :
+    Inv (ReqRes.setCl w c { C with qloans := C.qloans.filter (·.label ≠ l) }) ∧
+    LoanOk (ReqRes.setCl w c { C with qloans := C.qloans.filter (·.label ≠ l) }) c q.rid := by
+  have hq : q ∈ C.qloans := List.mem_of_find?_eq_some hfind
+  have hlab : q.label = l := by simpa using List.find?_some hfind
+  have hf6 := hI.f.f6 c C hC
+  have hlt : (C.qloans.filter (·.label ≠ l)).length < C.qloans.length := by
+    apply List.length_filter_lt_length_iff_exists.mpr
+    exact ⟨q, hq, by simp [hlab]⟩
+  refine ⟨?_, ?_⟩
+  · exact hI.setCl_frame' (C' := { C with qloans := C.qloans.filter (·.label ≠ l) }) hC rfl rfl rfl rfl
+      (fun P hP m hm => hI.x.g1 c C P m hC hP hm) (hI.x.cl3 c C hC)
+      (hI.y.setCl_sub hC (fun P hP => Or.inl ⟨P, hP, rfl, rfl⟩)) rfl
+      (hI.f.setCl_sub hC List.filter_sublist (fun P' hP' => ⟨P', hP', rfl⟩) (Nat.le_refl _)
+        (by show (C.qloans.filter (·.label ≠ l)).length ≤ C.loanCnt ∧ C.loanCnt ≤ w.cfg.maxLoans; omega))
+  · refine ⟨_, by simp, hI.f.f1 c C q hC hq, fun P hP => hI.f.f3 c C q P hC hq hP, ?_, ?_, ?_⟩
+    · intro q' hq' e
+      obtain ⟨hq1, hq2⟩ := List.mem_filter.mp hq'
+      have := mem_pairwise_qrid (hI.f.f2 c C hC) hq1 hq e
+      subst this
+      simp [hlab] at hq2
+    · refine ⟨fun t conn ch x e' hc hx he ht => ?_, fun s V v hV hv => ?_, fun s V v hV hv => ?_⟩
+      · obtain ⟨_, _, C', hC', _, hs⟩ := hI.e1 (cid c) t conn ch x e' hc hx he ht
+        simp only [cid_n] at hC'; rw [hC] at hC'; cases hC'
+        exact ⟨hs, hI.f.f4 c C q t conn ch x e' hC hq hc hx he ht⟩
+      · obtain ⟨C', hC', hr⟩ := hI.x.c4s s V c v hV hv
+        rw [hC] at hC'; cases hC'; exact hr
+      · exact hI.f.f5 c C q s V v hC hq hV hv
+    · show (C.qloans.filter (·.label ≠ l)).length < C.loanCnt
+      omega
+
+theorem Inv.opQSend {w : World} (hI : Inv w) (c l r tag : Nat) : Inv (opQSend w c l r tag).1 := by
+  unfold ReqRes.opQSend
+  split
+  · exact hI
+  · next C hC =>
+    split
+    · exact hI
+    · next q hfind =>
+      split
+      · exact hI
+      · obtain ⟨h1, hok⟩ := hI.takeLoan c l C q hC hfind
+        exact (h1.clientSendLoan c q r tag hok).clientDestroy c
+
+theorem Inv.opQDrop {w : World} (hI : Inv w) (c l : Nat) : Inv (opQDrop w c l).1 := by
+  unfold ReqRes.opQDrop
+  split
+  · exact hI
+  · next C hC =>
+    split
+    · exact hI
+    · next q hfind =>
+      obtain ⟨h1, C', hC', _, _, _, _, hlen⟩ := hI.takeLoan c l C q hC hfind
+      exact (h1.clientReleaseLoan c q (fun C'' hC'' => by rw [hC'] at hC''; cases hC''; exact hlen)).clientDestroy c
 
 /-- what is known about a request handed out by `Server::receive` -/
 def RecvOk (s : Nat) (w : World) (m : Msg) : Prop :=
